@@ -296,6 +296,14 @@ func (r *reporter) reportTape(f *failure, choices []uint32, build topBuilder, ch
 		// minimal value
 		key += " in " + valueSkeleton(v)
 	}
+	if strings.HasSuffix(final.Class, "-decode-error") && strings.Contains(final.Detail, "type not found for CCF type ID") {
+		// an unresolved back-reference: which construct holds it is only visible in the minimal value
+		if strings.Contains(describeValue(v, 1), "Attachment ") {
+			key += " in a value with an attachment type"
+		} else {
+			key += " in " + valueSkeleton(v)
+		}
+	}
 	r.c.Violate(key, clipS(final.Class+": "+final.Detail+" — minimal value: "+describeValue(v, 1), 1500), w)
 }
 
